@@ -23,10 +23,12 @@ const (
 	VerifSiteLangSet   = 3 // after Parse wrote the package-level error language
 	VerifSiteFormatErr = 4 // before the error formatter reads it
 	VerifSiteBlocked   = 5 // spinning on a held mutex (instrumented copies only)
+	VerifSiteSubReturn = 6 // a function / computed-value sub-VM has finished, its caller has not yet read the result
 	VerifSiteStmtBase  = 1000
 
 	verifSiteLangSet   = VerifSiteLangSet
 	verifSiteFormatErr = VerifSiteFormatErr
+	verifSiteSubReturn = VerifSiteSubReturn
 )
 
 // ErrVerifCancelled is the error an evaluation ends with when the step hook cancels it.
